@@ -71,6 +71,12 @@ CHECKS = {
  "C24": (E2, "exhaustive preemption-bounded schedule exploration of threads creating inputs, tracked structs and interned values on their own clones while handles are dropped and re-cloned; pairwise-distinctness and read-back oracle",
          "Seven harnesses: inputs created on fresh clones; a 126/128 page left behind by a dropped handle so that the page-full transition and the hand-over of the unfilled page fall inside the explored window; clones dropped and re-created mid-run; tracked structs created by two creators (and by the same creator) on two threads; interned values; a 3-thread mix. In every schedule (k=2, 1 for the larger ones; thorough +1) all identities of one kind are pairwise distinct across threads and every identity reads back the fields it was created with.",
          "As C16: page allocation goes through salsa's sync shim (atomics + table mutex), boxcar internals execute atomically between scheduling points.", "5/C24"),
+ "C22": (E1, "fault enumeration: every history of a bounded set x every user-code callback point reached in it gets a marker panic injected (one run per point) on a fresh real database; the rest of the history and a later revision are compared with the reference",
+         "25 programs (plain DAGs, tracked structs incl. colliding identities, interning, specify, fixpoint / joining / fallback cycles) x all histories of depth 2-3 x every callback point (body entry / between reads / exit, cycle_initial, cycle_fn, cycle_result, PartialEq of results and tracked fields, Hash/Eq of identity and interned fields, event callback): the marker must reach the caller of that operation; afterwards, with the panic gone, every request in the same revision (functions depending on a cycle may answer PropagatedPanic there) and every request after one more revision equals the from-scratch reference. Genuine defects found are listed as known findings.",
+         "Sequential part only in this round (the waiting-second-thread part is covered by C19/C20/C21 schedules). Injection is suppressed while already unwinding.", "5/C22"),
+ "C25": ("E4 edgex", "exhaustive enumeration of edge sequences over boundary classes of the compact encoding, through read-only hook H1, in the default and the persistence configuration",
+         "Every sequence of up to 2 (quick) / 3 (thorough) edges over 240 edge values (kind x ingredient {0,1,0xFFE,0xFFF,0x1000,0x7FFFFFFF} x index {0,1,2^31,max} x generation {0,1,0xFFFFF,0x100000,u32::MAX}) x origin kind x 5 combinations of extra revision data is stored through salsa's constructors: decoded edges equal the sequence in order, kind and key (forward and reverse), the input and output views partition it, attaching extra data later and clearing the edges preserve edges / extra data, and (persistence build) a serde round trip of the revisions decodes to the same edges and extra data.",
+         "Hook H1 (cargo feature salsa_verif) only re-exports construction/decoding; no logic. Longer sequences are outside the bound.", "5/C25"),
 }
 
 NOT_YET = {}
@@ -102,12 +108,14 @@ def main():
             "guard": "cargo feature salsa_verif (off by default)",
             "enable": "the harness crates depend on salsa = { path = \"/repo\" } and enable the feature through ql's `hooks` feature",
             "baseline_off_cmd": "cd /repo && cargo nextest run --workspace --no-fail-fast --tool-config-file pb:/w/lib/nextest.toml --profile pb --test-threads 8 --offline || cargo test --workspace --no-fail-fast --offline",
-            "source_commits": [],
+            "source_commits": ["390127b"],
             "add_only": True,
         },
         "engines": [
             {"name": "E1 histx", "path": "/verif/mc/drv/src/e1.rs", "serves_properties": [c["property_id"] for c in checks if c["engine"] == E1],
              "kind_free_text": "bounded-exhaustive enumeration of operation histories, each replayed on a fresh real salsa database; oracles: reference interpreter, fresh-database differential, log monitors"},
+            {"name": "E4 edgex", "path": "/verif/mc/drv/src/e4.rs", "serves_properties": ["C25"],
+             "kind_free_text": "exhaustive input enumeration of the edge encoding through hook H1"},
             {"name": "E2 ctl", "path": "/verif/mc/ctl/src/engine.rs", "serves_properties": [c["property_id"] for c in checks if c["engine"] == E2],
              "kind_free_text": "drop-in replacement of the shuttle crate (selected by [patch.crates-io]) running salsa's shuttle build on real OS threads under an exhaustive preemption-bounded DFS scheduler; self-validated by litmus tests in setup"},
         ],
